@@ -9,6 +9,9 @@ def run(ctx):
     out = [T.generics_rule(ctx.syn, "C07"), T.decl_rule(ctx.syn, "C07"), T.generated_state_rule(ctx.syn, "C07", "C07.R4")]
     for fs in ctx.featuresets():
         r = MM.import_shape_rule(ctx.mir(fs)["ts_rs"], "C07", rule="C07.R3")
+        if fs == "default":
+            from rules import export_rules as E
+            out.append(E.type_arg_discipline_rule(ctx.mir(fs)["ts_rs"], "C07", rule="C07.R5"))
         if fs != "default":
             r.rule += "@" + fs
         out.append(r)
